@@ -133,9 +133,33 @@ def usable(lab, timeout=20):
     return res.get("ok", False)
 
 
-def exc_name(t):
+def exc_name(t, lab=None):
     e = t.saved_exception
+    if e is None and lab is not None and t is lab.tc:
+        e = lab.pair.client_exc  # start_client() consumed it
     return type(e).__name__
+
+
+def poke(lab, n=3):
+    """Both peers send a few IGNOREs so that a broken packet stream shows at once instead of at the next
+    application message; returns when the link is drained or a side is dead."""
+    for t in (lab.ts, lab.tc):
+        for _ in range(n):
+            try:
+                if t.is_active():
+                    t.send_ignore()
+            except Exception:
+                break
+    pair.wait_for(lambda: lab.link.quiescent(0.05) or not (lab.tc.is_active() and lab.ts.is_active()), 10)
+    pair.wait_for(lambda: not (lab.tc.is_active() and lab.ts.is_active()), 0.2)
+
+
+def still_usable(lab, timeout):
+    """poke first; only a pair that survives that is probed with authentication and a channel."""
+    poke(lab)
+    if not (lab.tc.is_active() and lab.ts.is_active()):
+        return False
+    return usable(lab, timeout)
 
 
 # ---- stratum 1: injection at every position ---------------------------------------------------------
@@ -187,11 +211,13 @@ def inject_case(ctx, kex, role, k, ptype, strict_c, strict_s, hostalg, sample, d
         if not both:
             ctx.count("nonstrict.cases")
             # nothing is asserted about tolerance; let the session run into whatever happens and count the type
-            if drop_enc is not None and ok:
-                u = usable(lab, 4)
-                ctx.count("nonstrict.terrapin_session_%s" % ("usable" if u else "unusable"))
-            pair.wait_for(lambda: not vt.is_active(), 1.0)
-            n = exc_name(vt)
+            if ok:
+                u = still_usable(lab, 4)
+                if drop_enc is not None:
+                    ctx.count("nonstrict.terrapin_session_%s" % ("usable" if u else "unusable"))
+                else:
+                    ctx.count("nonstrict.injected_session_%s" % ("usable" if u else "unusable"))
+            n = exc_name(vt, lab)
             ctx.count("nonstrict.victim_exc.%s" % n)
             if n not in OK_EXC:
                 ctx.count("nonstrict.unexpected_exception_types")
@@ -208,11 +234,11 @@ def inject_case(ctx, kex, role, k, ptype, strict_c, strict_s, hostalg, sample, d
                           "the %s kept reading handshake messages after an injected %s (position %d)" % (role, TYPE_NAME[ptype], k),
                           wit)
             # does it even end up as a working session?
-            if usable(lab, 10):
+            if still_usable(lab, 10):
                 ctx.count("strict.shifted_sessions_usable")
             return
         ctx.count("strict.terminated")
-        ctx.count("strict.terminated_by.%s" % exc_name(vt))
+        ctx.count("strict.terminated_by.%s" % exc_name(vt, lab))
         if role == "client" and lab.pair.client_exc is not None:
             ctx.count("strict.start_client_raised")
     finally:
@@ -233,11 +259,8 @@ def drop_case(ctx, kex, role, j, hostalg, sample, mode=None):
         if not ok:
             ctx.inconclusive("clean strict handshake of a deletion case failed: %r %r" % (desc, lab.pair.client_exc))
             return
-        if role == "server":
-            # make the client's first encrypted packets harmless ones so that the deletion does not just stall it
-            for _ in range(j + 2):
-                lab.tc.send_ignore()
-        u = usable(lab, 15)
+        # harmless traffic first, so that a deleted packet does not merely stall the peer that waits for it
+        u = still_usable(lab, 15)
         if not lab.mitm.fired("drop_enc"):
             ctx.case(fp, nontrivial=False)
             ctx.count("edits_not_delivered")
@@ -456,7 +479,7 @@ def run(ctx):
                 for ci, (sc, ss) in enumerate(combos):
                     for k in range(npos):
                         for ti, ptype in enumerate(TYPES):
-                            if ctx.quick and (k + ti + ci + ki + ri + ctx.seed) % 7 != 0:
+                            if ctx.quick and (k + ti + ci + ki + ri + ctx.seed) % 13 != 0:
                                 continue
                             if not mine():
                                 continue
@@ -471,7 +494,7 @@ def run(ctx):
                                 continue
                             inject_case(ctx, kex, role, k, 2, True, True, kexlab.HOSTALGS[(ki + mi) % 7],
                                         samp("terrapin"), drop_enc=j, mode=mode)
-                            if not ctx.quick or (ki + mi + k) % 2 == 0:
+                            if not ctx.quick or (ki + mi + k) % 3 == 0:
                                 sc, ss = combos[(ki + k + j + mi) % 3]
                                 inject_case(ctx, kex, role, k, 2, sc, ss, kexlab.HOSTALGS[(ki + mi) % 7], False,
                                             drop_enc=j, mode=mode)
@@ -489,7 +512,7 @@ def run(ctx):
             # -- honest sessions: sequence numbers after every NEWKEYS ---------------------------------------
             for sc, ss in ((True, True), (True, False), (False, True), (False, False)):
                 for nre in ((1, 2) if ctx.quick else (0, 1, 2, 3)):
-                    if ctx.quick and not (sc and ss) and nre != 1:
+                    if ctx.quick and not (sc and ss) and (nre != 1 or (ki + ctx.seed) % 3 != (sc * 2 + ss)):
                         continue
                     for mi, mode in enumerate(MODES):
                         pick = (mi + ki + nre + ctx.seed) % 5
